@@ -19,9 +19,16 @@ pub struct DJob {
     pub cost: usize,
 }
 
+/// jobs whose edit is an option variation are not compared with the intact conversion
+/// (another legal option value may legitimately drop an optional link)
+pub fn is_option_variation(e: &Edit) -> bool {
+    matches!(e, Edit::ValueSwap { .. })
+}
+
 impl DJob {
     pub fn to_json(&self) -> Value {
-        json!({"t":"disk","file":self.file,"edit":self.edit,"level":self.level,"e2e":self.e2e,"closure":self.closure})
+        json!({"t":"disk","file":self.file,"edit":self.edit,"level":self.level,"e2e":self.e2e,"closure":self.closure,
+            "no_lost_links": is_option_variation(&self.edit)})
     }
 }
 
